@@ -71,14 +71,16 @@ def route (c : RxCfg) (i : Ids) : Option Nat :=
     `ids` reads the identity fields off the metadata, `dig` is the content digest the C02 model works
     with (any function of the payload plaintext). The network copy the model consumes is put there first
     (the network may hold any number of copies of anything it has ever seen: `Arq.Step.dupData`). -/
-def rxStep (openF : Bytes → Bytes → Option Bytes) (M : PCodec) (bd : PMd → Bytes → Option Bytes)
-    (ids : PMd → Ids) (dig : Bytes → Nat) (c : RxCfg) (s : Arq.St) (b : Bytes) : Arq.St :=
-  match parseD openF M bd b with
+def rxApply (ids : PMd → Ids) (dig : Bytes → Nat) (c : RxCfg) (s : Arq.St) : Option (PMd × Bytes) → Arq.St
   | none => s
   | some (m, p) =>
     match route c (ids m) with
     | none => s
     | some k => Arq.recv { s with netData := ⟨k, dig p⟩ :: s.netData } ⟨k, dig p⟩
+
+def rxStep (openF : Bytes → Bytes → Option Bytes) (M : PCodec) (bd : PMd → Bytes → Option Bytes)
+    (ids : PMd → Ids) (dig : Bytes → Nat) (c : RxCfg) (s : Arq.St) (b : Bytes) : Arq.St :=
+  rxApply ids dig c s (parseD openF M bd b)
 
 /-- a whole sequence of attacker-chosen datagrams, in the order the endpoint reads them -/
 def rxRun (openF : Bytes → Bytes → Option Bytes) (M : PCodec) (bd : PMd → Bytes → Option Bytes)
